@@ -70,7 +70,7 @@ def _r1_r2(run, ev):
     # loop structure: for path_index, fits_path in enumerate(self._paths)
     paths = ("attr", ("sym", "self"), "_paths")
     en = ("call", ("sym", "enumerate"), (paths,), ())
-    pidx, ppath = ("item", ("elem", en), 0), ("item", ("elem", en), 1)
+    pidx, ppath = ("op", "index", (paths,)), ("elem", paths)        # what `for i, p in enumerate(self._paths)` binds
     if path_t != ppath:
         run.violated("C20.R1", f, node, "the yielded path is %s, not the current element of self._paths (input order)" % show(path_t)[:60], kind="path-order")
     # the opened file
